@@ -56,7 +56,24 @@ CLAIM = {
             'call their kernel once in the precoder and once in the receive filter: the theorems assume the '
             'factorisation with the factors of both calls (checked per case), i.e. determinism of the kernel. '
             'Trusted additions: binary64 rounding (comparisons at 1e-9 relative; measured agreement ~1e-15), the '
-            'tap on the kernel calls, the harness. Defect found and fixed: SVDMimo receive filter for Nr > Nt.',
+            'tap on the kernel calls, the harness. Defects found and fixed: SVDMimo receive filter for Nr > Nt; '
+            'Alamouti negations wrapping for unsigned-integer arrays; MRT phases in half/single precision for '
+            'narrow-integer channels. Robustness classes: R1 element types (int16/32/64/uint8/float32/complex64 '
+            'arrays, Python / numpy scalar noise variances incl. float16 and 0-d arrays) and R2 layouts (Fortran, '
+            'transposed, strided, reversed, read-only views; (1,N)/(N,1) data; empty blocks): by theorem only in the '
+            'sense that the model is a function of the logical values, so the checks are correspondence (the exotic '
+            'input is run on the real code, the model sees its values) + oracles (float64/C-contiguous twin, round '
+            'trip, energy, normal equation of the filter decode() applies, result dtypes). R3 immutability / '
+            'independence of results: oracle (snapshots of every argument and every earlier result, '
+            'shares_memory, scribbling over returned blocks) + arguments-unchanged check in the correspondence; '
+            'model outputs are values. R4 rejected calls: theorem rejected_call_keeps_state + histories with '
+            'rejected steps in the correspondence + before/after oracle. R5 boundary values (0, 0.0, None, 1, 1.0 '
+            'noise variance after a positive one, 1x1, one symbol, 0/1 channels, sizes 7..33): covered by the '
+            'all-inputs theorems; correspondence + oracles. R6 scale 1e-12..1e12 on channel and data: theorems are '
+            'over C (scale-free); correspondence + oracles, every comparison relative to the input scale. R7 life '
+            'cycle: theorems same_configuration_same_object / object_state_is_configuration (objects built with or '
+            'without a channel, any order, repeated setters); correspondence on channel-less and repeated-setter '
+            'histories; shared channel array between two objects by oracle only.',
 }
 
 RTOL = 1e-9
@@ -105,8 +122,17 @@ def parse_c(s, shape):
     return (np.array(v[0::2]) + 1j * np.array(v[1::2])).reshape(shape)
 
 
+TOL = {'factor': 1.0}   # widened only while single-precision (float32 / complex64) inputs are exercised
+
+
+def amax(a):
+    """largest modulus of an array (the scale every comparison is relative to); never zero"""
+    a = np.asarray(a)
+    return max(float(np.abs(a).max()) if a.size else 0.0, 1e-300)
+
+
 def near(a, b, rtol=RTOL, scale=None):
-    """max |a-b| <= rtol * max(1, max|a|, max|b|) (or the given scale); shapes must agree"""
+    """max |a-b| <= rtol * max(max|a|, max|b|) (or the given scale): RELATIVE to the data; shapes must agree"""
     a = np.asarray(a)
     b = np.asarray(b)
     if a.shape != b.shape:
@@ -115,7 +141,8 @@ def near(a, b, rtol=RTOL, scale=None):
         return True, ''
     if not (np.all(np.isfinite(a)) and np.all(np.isfinite(b))):
         return False, 'non-finite'
-    s = scale if scale is not None else max(1.0, float(np.abs(a).max()), float(np.abs(b).max()))
+    s = scale if scale is not None else max(amax(a), amax(b))
+    rtol = rtol * TOL['factor']
     err = float(np.abs(a - b).max())
     if err > rtol * s:
         return False, 'max err %.3e (limit %.3e)' % (err, rtol * s)
@@ -260,8 +287,8 @@ def as2d(scheme, H):
 def c_pinv(A, G, cond):
     """Moore-Penrose conditions"""
     tol = 1e-11 * max(1.0, cond)
-    sA = max(1.0, float(np.abs(A).max()))
-    sG = max(1.0, float(np.abs(G).max()))
+    sA = amax(A)
+    sG = amax(G)
     for name, lhs, rhs, s in (('AGA=A', A @ G @ A, A, sA * sA * sG), ('GAG=G', G @ A @ G, G, sG * sG * sA),
                               ('(AG)^H=AG', Hm(A @ G), A @ G, sA * sG), ('(GA)^H=GA', Hm(G @ A), G @ A, sA * sG)):
         ok, why = near(lhs, rhs, tol, scale=s * max(A.shape))
@@ -272,7 +299,7 @@ def c_pinv(A, G, cond):
 
 def c_solve(A, B, W, cond):
     """the residual of a backward-stable solve does not grow with the condition number"""
-    s = max(1.0, float(np.abs(A).max())) * max(1.0, float(np.abs(W).max())) * A.shape[0] ** 2
+    s = amax(A) * amax(W) * A.shape[0] ** 2
     ok, why = near(A @ W, B, 1e-10, scale=s)
     return None if ok else 'solve A W = B: ' + why
 
@@ -280,7 +307,7 @@ def c_solve(A, B, W, cond):
 def c_svd(A, U, S, VH, thin):
     """U S V^H = A, orthonormal columns, S >= 0 non-increasing"""
     k = min(A.shape)
-    sA = max(1.0, float(np.abs(A).max())) * max(A.shape)
+    sA = amax(A) * max(A.shape)
     if S.shape != (k,) or np.any(S < 0) or np.any(np.diff(S) > 0):
         return 'svd S not non-negative non-increasing of length %d' % k
     want_u = (A.shape[0], k) if thin else (A.shape[0], A.shape[0])
@@ -303,7 +330,7 @@ def c_gmd(A, Q, R, P, S):
     """Q R P^H = A, Q and P unitary, R real upper triangular with constant diagonal = geometric mean of S"""
     nr, nt = A.shape
     k = min(nr, nt)
-    sA = max(1.0, float(np.abs(A).max())) * max(A.shape)
+    sA = amax(A) * max(A.shape)
     if Q.shape != (nr, nr) or R.shape != (nr, nt) or P.shape != (nt, nt):
         return 'gmd shapes Q%s R%s P%s' % (Q.shape, R.shape, P.shape)
     ok, why = near(Q @ R @ Hm(P), A, 1e-10, scale=sA)
@@ -318,7 +345,7 @@ def c_gmd(A, Q, R, P, S):
     if np.abs(np.tril(R, -1)).max() if R.size else 0.0:
         return 'gmd R not upper triangular'
     gm = float(np.exp(np.mean(np.log(S[:k]))))
-    ok, why = near(np.diag(R)[:k], gm * np.ones(k), 1e-10, scale=max(1.0, gm))
+    ok, why = near(np.diag(R)[:k], gm * np.ones(k), 1e-10, scale=gm)
     if not ok:
         return 'gmd diag R != geometric mean: ' + why
     return None
@@ -348,7 +375,7 @@ def o_roundtrip(case):
     d = np.asarray(d)
     if d.shape != x.shape:
         return cls, 'decoded shape %s, data shape %s' % (d.shape, x.shape)
-    tol = 1e-10 * max(1.0, cond2(H2)) * max(1.0, float(np.abs(x).max()) if x.size else 1.0)
+    tol = 1e-10 * TOL['factor'] * max(1.0, cond2(H2)) * amax(x)
     err = float(np.abs(d - x).max()) if x.size else 0.0
     if not (err <= tol):
         return cls, 'max |decoded - data| = %.3e > %.3e' % (err, tol)
@@ -376,11 +403,11 @@ def o_energy(case):
         return None
     per_use = float((np.abs(e) ** 2).sum()) / uses
     mean_sym = float((np.abs(x) ** 2).mean())
-    if abs(per_use - mean_sym) > 1e-10 * max(1.0, mean_sym):
+    if abs(per_use - mean_sym) > 1e-10 * TOL['factor'] * mean_sym:
         return cls, 'energy per channel use %.12g, mean symbol energy %.12g' % (per_use, mean_sym)
     if np.all(np.abs(np.abs(x) - 1.0) < 1e-12):
         col = (np.abs(e) ** 2).sum(axis=0)
-        if np.abs(col - 1.0).max() > 1e-10:
+        if np.abs(col - 1.0).max() > 1e-10 * TOL['factor']:
             return cls, 'unit-modulus symbols but a channel use radiates %.12g' % float(col[np.argmax(np.abs(col - 1))])
     return None
 
@@ -413,7 +440,7 @@ def o_mmse(case):
     if W.shape != (nt, nr):
         return cls, 'shape %s' % (W.shape,)
     A = Hm(H) @ H + nv * np.eye(nt)
-    ok, why = near(A @ W, Hm(H), 1e-9, scale=max(1.0, float(np.abs(A).max())) * max(1.0, float(np.abs(W).max())) * nt * nt)
+    ok, why = near(A @ W, Hm(H), 1e-9, scale=amax(A) * amax(W) * nt * nt)
     if not ok:
         return cls, 'normal equation: ' + why
     base = mse(W, H, nv)
@@ -549,9 +576,10 @@ def o_history(case):
     noise variance is None / 0"""
     scheme = case['scheme']
     m = _mimo()
-    obj = make(scheme, dec(case['H0']))
-    cur_arg, cur_nv = dec(case['H0']), 0.0
-    last, since = 'construct', set()
+    H0 = dec(case['H0']) if case['H0'] is not None else None
+    obj = make(scheme, H0)
+    cur_arg, cur_nv = H0, 0.0
+    last, since = ('construct' if H0 is not None else 'construct-without-channel'), set()
     fam = scheme in ('blast', 'mrc', 'svd', 'gmd')
     with warnings.catch_warnings():
         warnings.simplefilter('ignore')
@@ -583,10 +611,21 @@ def o_history(case):
                     if fam and (a is None or a >= 0):
                         return 'history:%s:guard' % scheme, where + 'rejected noise variance %r' % (a,)
                 continue
+            f = fresh_like(scheme, cur_arg, cur_nv)
+            if cur_arg is None:
+                # no channel yet: the object must answer exactly like a fresh channel-less one
+                probe = {'rt': [lambda o: o.encode(a), lambda o: o.decode(np.ones((1, 2), dtype=complex))],
+                         'flt': [lambda o: (o._calc_precoder(o._channel), o._calc_receive_filter(o._channel, a))],
+                         'sinr': [lambda o: o.calc_linear_SINRs(a)]}[k]
+                for fn in probe:
+                    r1, r2 = call_impl(lambda: fn(obj)), call_impl(lambda: fn(f))
+                    if r1[0] != r2[0] or (r1[0] == 'ok' and not near(np.asarray(r1[1]), np.asarray(r2[1]))[0]):
+                        return cls, where + 'without a channel: %s, fresh object: %s' % (r1[0], r2[0])
+                since = set()
+                continue
             H2 = as2d(scheme, cur_arg)
             nr, nt = H2.shape
             c = cond2(H2) if min(H2.shape) else 1.0
-            f = fresh_like(scheme, cur_arg, cur_nv)
             if k == 'rt':
                 x = a
                 try:
@@ -612,8 +651,8 @@ def o_history(case):
                     Heq = H2 @ (np.asarray(f._calc_precoder(H2)) * math.sqrt(nt))
                     if cur_nv > 0:
                         A = Hm(Heq) @ Heq + cur_nv * np.eye(nt)
-                        ok, why = near(A @ G, Hm(Heq), 1e-9, scale=max(1.0, float(np.abs(A).max()))
-                                       * max(1.0, float(np.abs(G).max())) * nt * nt)
+                        ok, why = near(A @ G, Hm(Heq), 1e-9, scale=amax(A)
+                                       * amax(G) * nt * nt)
                         if not ok:
                             return cls, where + 'filter used by decode is not the MMSE filter for noise_var=%r: %s' % (cur_nv, why)
                     else:
@@ -629,12 +668,12 @@ def o_history(case):
                 except Exception as ex:
                     return cls, where + 'raised %s' % type(ex).__name__
                 for u, v, nm in ((W, Wf, 'precoder'), (G, Gf, 'filter')):
-                    ok, why = near(np.asarray(u), np.asarray(v), scale=max(1.0, c) * 4 * max(1.0, float(np.abs(np.asarray(v)).max())))
+                    ok, why = near(np.asarray(u), np.asarray(v), scale=max(1.0, c) * 4 * amax(np.asarray(v)))
                     if not ok:
                         return cls, where + nm + ' differs from a fresh object: ' + why
             elif k == 'sinr':
                 try:
-                    s1, s2 = np.asarray(obj.calc_linear_SINRs(a)), np.asarray(f.calc_linear_SINRs(a))
+                    s1, s2 = sinr_lin(scheme, obj.calc_linear_SINRs(a)), sinr_lin(scheme, f.calc_linear_SINRs(a))
                 except Exception as ex:
                     return cls, where + 'raised %s' % type(ex).__name__
                 ok, why = near(s1, s2, 1e-7)
@@ -686,8 +725,450 @@ def o_sweep(case):
     return None
 
 
+# ================= robustness classes R1-R7 (real code only; first principles / float64 twin) =================
+class tol_factor:
+    """widen every tolerance while single-precision inputs are exercised"""
+
+    def __init__(self, f):
+        self.f = f
+
+    def __enter__(self):
+        self.old = TOL['factor']
+        TOL['factor'] = self.f
+
+    def __exit__(self, *a):
+        TOL['factor'] = self.old
+        return False
+
+
+INT_DT = ('int16', 'int32', 'int64', 'uint8')
+F32_DT = ('float32', 'complex64')
+SCALAR_T = {'float': float, 'int': int, 'int8': np.int8, 'uint8': np.uint8, 'int16': np.int16, 'uint16': np.uint16,
+            'int32': np.int32, 'int64': np.int64, 'float32': np.float32, 'float16': np.float16,
+            'array0d': lambda v: np.array(float(v))}
+
+
+def cast_arr(a, dt):
+    """the same VALUES in another element type (values are chosen representable)"""
+    a = np.asarray(a)
+    if dt in ('complex128', None):
+        return np.array(a, dtype=complex)
+    if dt == 'float64':
+        return np.array(a.real, dtype=float)
+    if dt == 'complex64':
+        return np.array(a, dtype=np.complex64)
+    out = np.array(a.real, dtype=dt)
+    assert np.array_equal(out.astype(float), a.real) and not np.any(a.imag), 'value not representable in ' + dt
+    return out
+
+
+def mk_scalar(v, t):
+    if v is None or t in (None, 'none'):
+        return v
+    return SCALAR_T[t](v)
+
+
+def is_single(*dts):
+    return any(d in F32_DT for d in dts)
+
+
+def sinr_lin(scheme, v):
+    """calc_linear_SINRs answers in dB for every class but Alamouti; compare ratios, not dB values near 0"""
+    v = np.atleast_1d(np.asarray(v, dtype=float))
+    return v if scheme == 'alamouti' else 10.0 ** (v / 10.0)
+
+
+def observe_all(obj, scheme, x, nv_q):
+    """every observable of an object for data x: encode, channel output, decode, filter used by decode,
+    precoder / filter pair and SINRs for noise variance nv_q"""
+    out = {}
+    e = np.asarray(obj.encode(x))
+    out['encode'] = e
+    H2 = np.asarray(obj._channel)
+    y = H2 @ e
+    out['decode'] = np.asarray(obj.decode(y))
+    if scheme != 'alamouti':
+        out['precoder'] = np.asarray(obj._calc_precoder(obj._channel))
+        out['filter'] = np.atleast_2d(np.asarray(obj._calc_receive_filter(obj._channel, nv_q)))
+    out['sinr'] = sinr_lin(scheme, obj.calc_linear_SINRs(nv_q))
+    return out
+
+
+def cmp_obs(a, b, c, x, what, skip=()):
+    for k in a:
+        if k in skip:
+            continue
+        sc = None
+        if k == 'decode':
+            sc = xscale(c, x)
+        elif k == 'filter':
+            sc = max(1.0, c) * 4 * amax(b[k])
+        ok, why = near(a[k], np.asarray(b[k]).reshape(np.asarray(a[k]).shape) if np.asarray(a[k]).size == np.asarray(b[k]).size
+                       else b[k], 1e-7 if k == 'sinr' else RTOL, scale=sc)
+        if not ok:
+            return '%s: %s differs from %s: %s' % (k, k, what, why)
+    return None
+
+
+def first_principles(obj, scheme, H2f, x, nv, c):
+    """round trip (ZF) / normal equation of the filter decode() really applies (MMSE) for the logical values"""
+    nr, nt = H2f.shape
+    fam = scheme in ('blast', 'mrc', 'svd', 'gmd')
+    e = np.asarray(obj.encode(x))
+    if e.dtype.kind not in 'fc':
+        return 'encode returned dtype %s' % e.dtype
+    d = np.asarray(obj.decode(np.asarray(obj._channel) @ e))
+    if d.dtype.kind not in 'fc':
+        return 'decode returned dtype %s' % d.dtype
+    xf = np.asarray(x, dtype=complex).reshape(-1)
+    uses = e.shape[1]
+    if uses:
+        per_use, mean_sym = float((np.abs(e.astype(complex)) ** 2).sum()) / uses, float((np.abs(xf) ** 2).mean())
+        if abs(per_use - mean_sym) > 1e-10 * TOL['factor'] * mean_sym:
+            return 'energy per channel use %.12g, mean symbol energy %.12g' % (per_use, mean_sym)
+    if (not fam) or scheme == 'svd' or nv is None or float(nv) == 0.0:
+        ok, why = near(d, xf, 1e-10, scale=xscale(c, xf))
+        return None if ok else 'noise-free round trip: ' + why
+    nvf = float(nv)
+    G = used_filter(obj, nr) / math.sqrt(nt)
+    Wp = np.asarray(obj._calc_precoder(obj._channel), dtype=complex) * math.sqrt(nt)  # what the object transmits with
+    Heq = H2f @ Wp
+    A = Hm(Heq) @ Heq + nvf * np.eye(nt)
+    ok, why = near(A @ G, Hm(Heq), 1e-9, scale=amax(A) * amax(G) * nt * nt)
+    return None if ok else 'filter used by decode is not the MMSE filter for noise_var=%r: %s' % (nvf, why)
+
+
+def o_dtype(case):
+    """R1: the same values in another element type give the result of the float64 / complex128 twin"""
+    scheme = case['scheme']
+    H, x = dec(case['H']), dec(case['x'])
+    hdt, xdt, nvt, nv = case.get('hdt'), case.get('xdt'), case.get('nvt'), case.get('nv')
+    tag = ','.join(t for t in ('H=%s' % hdt if hdt else '', 'x=%s' % xdt if xdt else '', 'nv=%s' % nvt if nvt else '') if t)
+    cls = 'R1:%s:%s' % (scheme, tag or 'float64')
+    fam = scheme in ('blast', 'mrc', 'svd', 'gmd')
+    with warnings.catch_warnings(), tol_factor(1e5 if is_single(hdt, xdt) else 1.0):
+        warnings.simplefilter('ignore')
+        try:
+            Hv, xv, nvv = cast_arr(H, hdt), cast_arr(x, xdt), mk_scalar(nv, nvt)
+            # real element types get a real twin: LAPACK's real and complex drivers may pick different phases
+            Ht = np.array(H.real, dtype=float) if Hv.dtype.kind in 'iuf' else np.array(H, dtype=complex)
+            xt = np.array(x, dtype=complex)
+            obj, twin = make(scheme, Hv), make(scheme, Ht)
+            if fam:
+                obj.set_noise_var(nvv)
+                twin.set_noise_var(None if nv is None else float(nv))
+            H2f = as2d(scheme, np.array(H, dtype=complex))
+            c = cond2(H2f)
+            nv_q = 0.5 * amax(H) ** 2
+            a, bt = observe_all(obj, scheme, xv, nv_q), observe_all(twin, scheme, xt, nv_q)
+            for k, v in a.items():
+                if v.dtype.kind not in 'fc':
+                    return cls, '%s returned dtype %s (truncating)' % (k, v.dtype)
+            # singular vectors are fixed only up to a phase: a single-precision LAPACK run may pick another one
+            skip = ('encode', 'precoder', 'filter') if (scheme in ('svd', 'gmd') and is_single(hdt)) else ()
+            why = cmp_obs(a, bt, c, xt, 'the float64 twin', skip) or first_principles(obj, scheme, H2f, xv, nv, c)
+        except Exception as ex:
+            return cls, 'raised %s: %s' % (type(ex).__name__, str(ex)[:150])
+    return None if why is None else (cls, why)
+
+
+LAYOUTS = ('F', 'T', 'strided', 'rev', 'readonly')
+
+
+def relayout(A, lay):
+    """the same values in another memory layout"""
+    A = np.asarray(A)
+    if lay in (None, 'C'):
+        return np.ascontiguousarray(A)
+    if lay == 'F':
+        return np.asfortranarray(A)
+    if lay == 'readonly':
+        out = np.array(A)
+        out.setflags(write=False)
+        return out
+    if lay == 'rev':
+        return np.ascontiguousarray(A[(slice(None, None, -1),) * A.ndim])[(slice(None, None, -1),) * A.ndim]
+    if lay == 'T':
+        return np.ascontiguousarray(A.T).T if A.ndim == 2 else relayout(A, 'strided')
+    big = np.zeros(tuple(3 * d for d in A.shape), dtype=A.dtype)
+    view = big[(slice(1, None, 3),) * A.ndim]
+    view[...] = A
+    return view
+
+
+def o_layout(case):
+    """R2: non-contiguous / Fortran / reversed / read-only views and (1,N)/(N,1) data give, position by position,
+    the result of the C-contiguous copy"""
+    scheme = case['scheme']
+    H, x = dec(case['H']), dec(case['x'])
+    hl, xl, yl, nv = case.get('hl'), case.get('xl'), case.get('yl'), case.get('nv', 0.0)
+    tag = ','.join(t for t in ('H=%s' % hl if hl else '', 'x=%s' % xl if xl else '', 'Y=%s' % yl if yl else '') if t)
+    cls = 'R2:%s:%s' % (scheme, tag or 'C')
+    fam = scheme in ('blast', 'mrc', 'svd', 'gmd')
+    with warnings.catch_warnings():
+        warnings.simplefilter('ignore')
+        try:
+            Hv = relayout(H, hl)
+            xv = x.reshape(1, -1) if xl == 'row' else x.reshape(-1, 1) if xl == 'col' else relayout(x, xl)
+            obj, twin = make(scheme, Hv), make(scheme, np.ascontiguousarray(H))
+            if fam:
+                obj.set_noise_var(nv)
+                twin.set_noise_var(nv)
+            e, et = np.asarray(obj.encode(xv)), np.asarray(twin.encode(np.ascontiguousarray(x)))
+            ok, why = near(e, et, 1e-12)
+            if not ok:
+                return cls, 'encode differs from the C-contiguous copy: ' + why
+            H2 = as2d(scheme, H)
+            y = np.ascontiguousarray(H2 @ et)
+            d, dt_ = np.asarray(obj.decode(relayout(y, yl))), np.asarray(twin.decode(y))
+            ok, why = near(d, dt_, 1e-12, scale=xscale(cond2(H2), x))
+            if not ok:
+                return cls, 'decode differs from the C-contiguous copy: ' + why
+            if d.ndim != 1:
+                return cls, 'decode returned shape %s' % (d.shape,)
+        except Exception as ex:
+            return cls, 'raised %s: %s' % (type(ex).__name__, str(ex)[:150])
+    return None
+
+
+def o_immutable(case):
+    """R3: no call changes an argument, results of earlier calls never change later, results are fresh arrays"""
+    scheme = case['scheme']
+    H, x, nv = dec(case['H']), dec(case['x']), case.get('nv', 0.0)
+    fam = scheme in ('blast', 'mrc', 'svd', 'gmd')
+    cls0 = 'R3:%s:' % scheme
+    kept = []   # (name, live array, snapshot, is_input)
+
+    def keep(name, a, is_input):
+        kept.append((name, a, np.array(a, copy=True), is_input))
+
+    def verify(after):
+        for name, a, snap, is_input in kept:
+            if a.shape != snap.shape or not np.array_equal(a, snap):
+                return (cls0 + ('input-mutated:' if is_input else 'output-changed:') + name,
+                        '%s changed after %s' % (name, after))
+        return None
+
+    def fresh_output(name, out, inputs):
+        for nm, arr in inputs:
+            if np.shares_memory(out, arr):
+                return cls0 + 'output-aliases-input:' + name, '%s shares memory with %s' % (name, nm)
+        return None
+    with warnings.catch_warnings():
+        warnings.simplefilter('ignore')
+        try:
+            Hin = np.array(H)
+            keep('channel', Hin, True)
+            obj = make(scheme, Hin)
+            if fam:
+                obj.set_noise_var(nv)
+            for rnd in range(2):
+                x1 = np.array(x) * (1 + rnd)
+                keep('transmit_data#%d' % rnd, x1, True)
+                e1 = obj.encode(x1)
+                r = verify('encode') or fresh_output('encode', e1, [('transmit_data', x1), ('channel', Hin)])
+                if r:
+                    return r
+                keep('encode#%d' % rnd, e1, False)
+                y = np.array(as2d(scheme, Hin) @ e1)
+                keep('received_data#%d' % rnd, y, True)
+                d1 = obj.decode(y)
+                r = verify('decode') or fresh_output('decode', d1, [('received_data', y), ('channel', Hin), ('encode', e1)])
+                if r:
+                    return r
+                keep('decode#%d' % rnd, d1, False)
+                if scheme != 'alamouti':
+                    W, G = obj._calc_precoder(obj._channel), obj._calc_receive_filter(obj._channel, 0.3 * amax(H) ** 2)
+                    if isinstance(W, np.ndarray):
+                        keep('precoder#%d' % rnd, W, False)
+                    if isinstance(G, np.ndarray):
+                        keep('filter#%d' % rnd, G, False)
+                s1 = obj.calc_linear_SINRs(0.3 * amax(H) ** 2)
+                if isinstance(s1, np.ndarray) and s1.ndim:
+                    keep('sinr#%d' % rnd, s1, False)
+                r = verify('the precoder / filter / SINR queries')
+                if r:
+                    return r
+                if fam:
+                    obj.set_noise_var(0.2 * amax(H) ** 2 if rnd == 0 else None)
+                    obj.decode(y)
+                H2n = np.array(H) * 1.5
+                keep('channel(new)#%d' % rnd, H2n, True)
+                obj.set_channel_matrix(H2n)
+                obj.decode(np.array(as2d(scheme, H2n) @ obj.encode(x1)))
+                r = verify('reconfiguring and decoding again')
+                if r:
+                    return r
+            # scribbling over a returned array must not reach into the object
+            ref = np.array(obj.encode(x))
+            out = obj.encode(x)
+            out[...] = 0
+            again = obj.encode(x)
+            if not np.array_equal(np.asarray(again), ref):
+                return cls0 + 'internal-buffer:encode', 'overwriting a returned block changed the next encode'
+            y = np.array(np.asarray(obj._channel) @ ref)
+            refd = np.array(obj.decode(y))
+            out = obj.decode(y)
+            out[...] = 0
+            if not np.array_equal(np.asarray(obj.decode(y)), refd):
+                return cls0 + 'internal-buffer:decode', 'overwriting a returned block changed the next decode'
+        except Exception as ex:
+            return cls0 + 'exception', 'raised %s: %s' % (type(ex).__name__, str(ex)[:150])
+    return None
+
+
+def bad_channel(scheme, H):
+    H2 = as2d(scheme, H)
+    if scheme in ('blast', 'svd', 'gmd'):
+        return H2[:, 0].copy()           # 1-D
+    if scheme == 'mrt':
+        return np.vstack([H2, H2])       # two receive antennas
+    if scheme == 'alamouti':
+        return np.hstack([H2, H2[:, :1]])  # three transmit antennas
+    return None
+
+
+def state_of(obj, scheme, x):
+    """everything observable about the object (values, not identities)"""
+    st = {'channel': None if obj._channel is None else np.array(obj._channel),
+          'noise_var': getattr(obj, '_noise_var', None),
+          'layers': call_impl(obj.getNumberOfLayers)[1]}
+    if obj._channel is not None:
+        st.update({k: np.array(v) for k, v in observe_all(obj, scheme, x, 0.3 * amax(obj._channel) ** 2).items()})
+    return st
+
+
+def same_state(a, b):
+    for k in a:
+        u, v = a[k], b[k]
+        if isinstance(u, np.ndarray) or isinstance(v, np.ndarray):
+            if u is None or v is None or np.asarray(u).shape != np.asarray(v).shape or not np.array_equal(u, v):
+                return k
+        elif u != v:
+            return k
+    return None
+
+
+def o_rejected(case):
+    """R4: a call that raises leaves the object exactly as it was; afterwards it still behaves like a fresh one"""
+    scheme, bad = case['scheme'], case['bad']
+    H, x, nv = dec(case['H']), dec(case['x']), case.get('nv', 0.0)
+    fam = scheme in ('blast', 'mrc', 'svd', 'gmd')
+    cls = 'R4:%s:%s' % (scheme, bad)
+    with warnings.catch_warnings():
+        warnings.simplefilter('ignore')
+        try:
+            obj = make(scheme, np.array(H))
+            if fam:
+                obj.set_noise_var(nv)
+            before = state_of(obj, scheme, x)
+            H2 = as2d(scheme, H)
+            call = {'channel': lambda: obj.set_channel_matrix(bad_channel(scheme, H)),
+                    'noise': lambda: obj.set_noise_var(-0.5),
+                    'length': lambda: obj.encode(np.concatenate([x, x[:1]])),
+                    'rows': lambda: obj.decode(np.ones((H2.shape[0] + 1, 2), dtype=complex))}[bad]
+            try:
+                call()
+                return cls, 'the call was accepted'
+            except Exception:
+                pass
+            k = same_state(before, state_of(obj, scheme, x))
+            if k is not None:
+                return cls, 'the rejected call changed %s' % k
+            f = make(scheme, np.array(H))
+            nv2 = 0.1 * amax(H) ** 2
+            if fam:
+                obj.set_noise_var(nv2)
+                f.set_noise_var(nv2)
+            k = same_state(state_of(f, scheme, x), state_of(obj, scheme, x))
+            if k is not None:
+                return cls, 'after the rejected call %s differs from an object that never saw it' % k
+        except Exception as ex:
+            return cls, 'raised %s: %s' % (type(ex).__name__, str(ex)[:150])
+    return None
+
+
+def relabel(r, cls):
+    return None if r is None else (cls, '[%s] %s' % r)
+
+
+def o_boundary(case):
+    """R5: exact 0 / 0.0 / None / 1 noise variances (also right after a positive one), 1x1 channels, one symbol,
+    0/1 channels, size boundaries -- through the round-trip, energy and history oracles"""
+    scheme, kind = case['scheme'], case['kind']
+    cls = 'R5:%s:%s' % (scheme, kind)
+    if kind == 'noise-values':
+        x = case['x']
+        ops = []
+        for v in case['values']:
+            ops += [{'op': 'nv', 'v': v}, {'op': 'rt', 'x': x}]
+        return relabel(o_history({'scheme': scheme, 'H0': case['H'], 'ops': ops}), cls)
+    sub = {'scheme': scheme, 'H': case['H'], 'x': case['x']}
+    return relabel(o_roundtrip(sub) or o_energy(sub) or o_immutable(dict(sub, nv=0.0)), cls)
+
+
+def o_scale(case):
+    """R6: the whole input multiplied by 1e-12 ... 1e12 (channel and/or data): every property still holds, all
+    comparisons relative to the input scale"""
+    scheme = case['scheme']
+    hs, xs = case['hs'], case['xs']
+    cls = 'R6:%s:H*%.0e,x*%.0e' % (scheme, hs, xs)
+    H, x = dec(case['H']) * hs, dec(case['x']) * xs
+    sub = {'scheme': scheme, 'H': enc(H), 'x': enc(x)}
+    r = o_roundtrip(sub) or o_energy(sub)
+    if r is None and scheme in ('blast', 'mrc', 'gmd'):
+        nv = case['nv_rel'] * amax(H) ** 2
+        hist = {'scheme': scheme, 'H0': enc(H), 'ops': [{'op': 'nv', 'v': nv}, {'op': 'rt', 'x': enc(x)}, {'op': 'sinr', 'v': nv},
+                                                         {'op': 'nv', 'v': None}, {'op': 'rt', 'x': enc(x)}]}
+        r = o_history(hist) or o_sweep({'scheme': scheme, 'H': enc(H), 'x': enc(x), 'exps': [2, 6, 12], 'final': None})
+        if r is None and scheme == 'blast':
+            r = o_zf({'H': enc(H)}) or o_mmse({'H': enc(H), 'nv': nv, 'pseed': 1}) or o_gmd({'H': enc(H)})
+    return relabel(r, cls)
+
+
+def o_lifecycle(case):
+    """R7: objects built without a channel, setters in any order and repeated, one channel array shared by two
+    objects: always the behaviour of a freshly built object with the current configuration"""
+    scheme, kind = case['scheme'], case['kind']
+    cls = 'R7:%s:%s' % (scheme, kind)
+    if kind in ('late-channel', 'repeated-setters'):
+        return relabel(o_history(case['history']), cls)
+    # shared-channel: the SAME ndarray configures two objects; work on one must not show in the other
+    H, x = dec(case['H']), dec(case['x'])
+    other = case['other']
+    with warnings.catch_warnings():
+        warnings.simplefilter('ignore')
+        try:
+            shared = np.array(H)
+            snap = shared.copy()
+            a, b_ = make(scheme, shared), make(other, shared)
+            xb = dec(case['xb'])
+            ref_b = state_of(make(other, np.array(H)), other, xb)
+            for _ in range(2):
+                e = a.encode(x)
+                a.decode(as2d(scheme, shared) @ e)
+                if hasattr(a, 'set_noise_var'):
+                    a.set_noise_var(0.3 * amax(H) ** 2)
+                    a.decode(as2d(scheme, shared) @ e)
+                    a.set_noise_var(None)
+                if not np.array_equal(shared, snap):
+                    return cls, 'using one object changed the shared channel array'
+                k = same_state(ref_b, state_of(b_, other, xb))
+                if k is not None:
+                    return cls, 'using one object changed %s of the object sharing its channel' % k
+            a.set_channel_matrix(np.array(H) * 2.0)
+            k = same_state(ref_b, state_of(b_, other, xb))
+            if k is not None:
+                return cls, 're-pointing one object changed %s of the other' % k
+        except Exception as ex:
+            return cls, 'raised %s: %s' % (type(ex).__name__, str(ex)[:150])
+    return None
+
+
 ORACLES = {'roundtrip': o_roundtrip, 'energy': o_energy, 'zf': o_zf, 'mmse': o_mmse, 'mmse-limit': o_mmse_limit,
-           'guard': o_reject, 'gmd': o_gmd, 'history': o_history, 'sweep': o_sweep}
+           'guard': o_reject, 'gmd': o_gmd, 'history': o_history, 'sweep': o_sweep,
+           'dtype': o_dtype, 'layout': o_layout, 'immutable': o_immutable, 'rejected': o_rejected,
+           'boundary': o_boundary, 'scale': o_scale, 'lifecycle': o_lifecycle}
 
 
 def run_oracle(ctx, call, case, key=None, nontrivial=True):
@@ -709,13 +1190,24 @@ def replay(ctx, rep):
 
 
 # --------------------------------------------------------------- correspondence
+PYERR = (AssertionError, AttributeError, IndexError, KeyError, ZeroDivisionError, TypeError, ValueError, RuntimeError)
+
+
+def err_kind(ex):
+    """the model's exception kinds (np.linalg.LinAlgError is a ValueError)"""
+    for t in PYERR:
+        if isinstance(ex, t):
+            return t.__name__
+    return type(ex).__name__
+
+
 def call_impl(f):
     try:
         with warnings.catch_warnings():
             warnings.simplefilter('ignore')
             return 'ok', f()
     except Exception as ex:
-        return 'error:' + type(ex).__name__, None
+        return 'error:' + err_kind(ex), None
 
 
 def cmp_corr(ctx, name, case, impl, model_str, shape, key, scale=None):
@@ -768,7 +1260,7 @@ class Batch:
 
 
 def xscale(c, x):
-    return max(1.0, c) * max(1.0, float(np.abs(x).max()) if x.size else 1.0)
+    return max(1.0, c) * amax(x)
 
 
 def corr_blast(ctx, b, scheme, H, x, nv, ck):
@@ -813,7 +1305,7 @@ def corr_blast(ctx, b, scheme, H, x, nv, ck):
     def f_flt(o):
         out = o.split('|')
         cmp_corr(ctx, scheme + '.precoder', case, W, out[0], (nt, nt), ck + ('W',))
-        cmp_corr(ctx, scheme + '.filter', case, G, out[1], (nt, nr), ck + ('G',), scale=max(1.0, float(np.abs(res).max())) * 4)
+        cmp_corr(ctx, scheme + '.filter', case, G, out[1], (nt, nr), ck + ('G',), scale=amax(res) * 4)
     b.add('blastflt %d %d %s %s %s' % (nr, nt, cline([nv]), cline(Gp), cline(Ws)), f_flt)
     b.add('blastenc %d %d %s' % (nt, x.size, cline(x)),
           lambda o: cmp_corr(ctx, scheme + '.encode', case, e, o, (nt, L), ck + ('e',)))
@@ -865,14 +1357,14 @@ def corr_svd(ctx, b, H, x, ck):
         return
     contract(ctx, 'svd', c_svd(Hc, U2, S2, VH2, thin=True), case)
     # what svd_roundtrip assumes of the two calls together: U2 diag(S2) VH1 = H
-    ok, why = near((U2 * S2) @ VH1[:k, :], Hc, 1e-11, scale=max(1.0, float(np.abs(H).max())) * max(H.shape))
+    ok, why = near((U2 * S2) @ VH1[:k, :], Hc, 1e-11, scale=amax(H) * max(H.shape))
     contract(ctx, 'svd-two-calls', None if ok else 'U(filter) S VH(precoder) = H: ' + why, case)
     b.add('svdenc %d %d %s %s' % (nt, x.size, cline(VH1), cline(x)),
           lambda o: cmp_corr(ctx, 'svd.precoder', case, W, o.split('|')[0], (nt, nt), ck + ('W',)))
     b.add('svdenc %d %d %s %s' % (nt, x.size, cline(VH3), cline(x)),
           lambda o: cmp_corr(ctx, 'svd.encode', case, e, o.split('|')[1], (nt, L), ck + ('e',)))
     c = cond2(H)
-    gscale = max(1.0, float(1.0 / S2.min())) * 4 * math.sqrt(nt)
+    gscale = float(1.0 / S2.min()) * 4 * math.sqrt(nt)
     if e[0] == 'ok':
         y = H @ e[1]
         with Tap() as t3:
@@ -932,7 +1424,7 @@ def corr_gmd(ctx, b, H, x, nv, ck):
             return
     ctx.branch('contract-ok:gmd')
     # what gmd_roundtrip assumes of the two calls together: Q2 R2 P1^H = H
-    ok, why = near(Q2 @ R2 @ Hm(P1), Hc, 1e-10, scale=max(1.0, float(np.abs(H).max())) * max(H.shape))
+    ok, why = near(Q2 @ R2 @ Hm(P1), Hc, 1e-10, scale=amax(H) * max(H.shape))
     contract(ctx, 'gmd-two-calls', None if ok else 'Q R (filter) P^H (precoder) = H: ' + why, case)
     b.add('gmdenc %d %d %s %s' % (nt, x.size, cline(P1), cline(x)),
           lambda o: cmp_corr(ctx, 'gmd.precoder', case, W, o.split('|')[0], (nt, nt), ck + ('W',)))
@@ -973,7 +1465,7 @@ def corr_gmd(ctx, b, H, x, nv, ck):
         ctx.branch('corr:gmd:encode-rejected')
     b.add('gmddec %d %d %d %s %s %s %s' % (nr, nt, 0, cline([nv]), cline(Gp), cline(Ws), '-'),
           lambda o: cmp_corr(ctx, 'gmd.filter', case, G, o.split('|')[0], (nt, nr), ck + ('G',),
-                             scale=max(1.0, float(np.abs(kc[3]).max())) * 4))
+                             scale=amax(kc[3]) * 4))
 
 
 def corr_mrt(ctx, b, h, x, ck, two_d):
@@ -996,7 +1488,7 @@ def corr_mrt(ctx, b, h, x, ck, two_d):
     def f(o):
         out = o.split('|')
         cmp_corr(ctx, 'mrt.precoder', case, W, out[0], (nt, 1), ck + ('W',))
-        cmp_corr(ctx, 'mrt.filter', case, G, out[1], (), ck + ('G',), scale=max(1.0, abs(G[1]) if G[0] == 'ok' else 1.0))
+        cmp_corr(ctx, 'mrt.filter', case, G, out[1], (), ck + ('G',), scale=abs(G[1]) if G[0] == 'ok' else 1.0)
         cmp_corr(ctx, 'mrt.encode', case, e, out[2], (nt, x.size), ck + ('e',))
         cmp_corr(ctx, 'mrt.decode', case, d, out[3], (x.size,), ck + ('d',))
     b.add('mrt %d %d %s %s %s' % (nt, x.size, cline(h), cline(x), cline(y)), f)
@@ -1047,6 +1539,8 @@ def corr_guards(ctx, drv):
 
 # ---- object histories: correspondence with the state-machine model -------------------------
 def chan_tok(Harg):
+    if Harg is None:
+        return 'none'
     Harg = np.asarray(Harg)
     if Harg.ndim == 1:
         return 'v:%d:%s' % (Harg.size, cline(Harg))
@@ -1110,10 +1604,12 @@ def corr_history(ctx, b, case, ck):
     """drive ONE real object through the history, tap every step, replay the same steps on the model object"""
     scheme = case['scheme']
     m = _mimo()
-    H0 = dec(case['H0'])
+    H0 = dec(case['H0']) if case['H0'] is not None else None
     st, obj = call_impl(lambda: make(scheme, H0))
     toks, impl = [], []       # model op tokens; impl (name, status, arrays, scale)
     ctx.branch('hist:' + scheme)
+    if H0 is None:
+        ctx.branch('R7:corr')
     if st != 'ok':
         b.add('hist %s %s' % (scheme, chan_tok(H0)), lambda o: ctx.corr('history.construct', case, st, o, key=ck + ('c',)))
         return
@@ -1124,16 +1620,19 @@ def corr_history(ctx, b, case, ck):
             toks.append('sc;' + chan_tok(a))
             impl.append(('set_channel', 'done' if st == 'ok' else st, None, None))
             ctx.branch('hist-op:set_channel:' + ('ok' if st == 'ok' else 'rejected'))
+            if st != 'ok':
+                ctx.branch('R4:corr')
             continue
         if k == 'nv':
             st, _ = call_impl(lambda: obj.set_noise_var(a))
             toks.append('nv;' + ('none' if a is None else cline([a])))
             impl.append(('set_noise_var', 'done' if st == 'ok' else st, None, None))
             ctx.branch('hist-op:set_noise_var:' + ('ok' if st == 'ok' else 'rejected'))
+            if st != 'ok':
+                ctx.branch('R4:corr')
             continue
         H2 = obj._channel
-        nr, nt = H2.shape
-        c = cond2(H2) if min(H2.shape) else 1.0
+        c = cond2(H2) if (H2 is not None and min(H2.shape)) else 1.0
         nv_obj = getattr(obj, '_noise_var', None)
         steps = []
         if k == 'rt':
@@ -1141,7 +1640,7 @@ def corr_history(ctx, b, case, ck):
                 e = call_impl(lambda: obj.encode(a))
             steps.append(('enc', t.log, e, 'enc;%d;%s' % (a.size, cline(a)), None, e[0] == 'ok', None))
             if e[0] == 'ok':
-                y = H2 @ e[1]
+                y = H2 @ e[1] if H2 is not None else np.ones((1, e[1].shape[1]), dtype=complex)
                 with Tap() as t:
                     d = call_impl(lambda: obj.decode(y))
                 steps.append(('dec', t.log, d, 'dec;%d;%d;%s' % (y.shape[0], y.shape[1], cline(y)), nv_obj, True, xscale(c, a)))
@@ -1191,7 +1690,7 @@ def corr_history(ctx, b, case, ck):
                     va = va.reshape(a_.shape)
                 sc = scale
                 if kind == 'flt':
-                    sc = max(1.0, float(np.abs(va).max()) if va.size else 1.0) * 4
+                    sc = amax(va) * 4
                 ok, why = near(va, a_, 1e-7 if kind == 'sinr' else RTOL, scale=sc)
                 good = good and ok
                 if not ok:
@@ -1200,7 +1699,7 @@ def corr_history(ctx, b, case, ck):
     b.add('hist %s %s %s' % (scheme, chan_tok(H0), ' '.join(toks)), f)
 
 
-def gen_history(rng, g, scheme, max_n, n_reconf=None):
+def gen_history(rng, g, scheme, max_n, n_reconf=None, late=None):
     """2-6 reconfigurations of one object (noise variance only / channel only / both in either order), with
     observations in between; a few rejected arguments"""
     fam = scheme in ('blast', 'mrc', 'svd', 'gmd')
@@ -1229,7 +1728,7 @@ def gen_history(rng, g, scheme, max_n, n_reconf=None):
 
     def noise(Hc):
         r = rng.uniform()
-        sc = float(np.abs(Hc).max()) ** 2
+        sc = amax(Hc) ** 2
         if r < 0.2:
             return None
         if r < 0.4:
@@ -1238,19 +1737,26 @@ def gen_history(rng, g, scheme, max_n, n_reconf=None):
             return -10.0 ** rng.uniform(-3, 0)
         return 10.0 ** rng.uniform(-6, 1) * sc
 
-    H0 = chan()
+    late = rng.chance(0.25) if late is None else late
+    H0 = None if late else chan()
     cur = H0
     ops = []
 
     def observe():
+        if cur is None:  # no channel yet: every observation is an error (Alamouti.encode excepted)
+            out = [{'op': 'rt', 'x': enc(g.data(2)[0])}]
+            if rng.chance(0.5):
+                out.append({'op': rng.choice(['flt', 'sinr']), 'v': 0.1})
+            return out
         nt = as2d(scheme, cur).shape[1]
         L = rng.choice([1, 2, 3])
         n = 2 * L if scheme == 'alamouti' else (nt * L if scheme in ('blast', 'svd', 'gmd') else L)
         out = [{'op': 'rt', 'x': enc(g.data(n)[0])}]
+        sc2 = amax(cur) ** 2
         if rng.chance(0.4):
-            out.append({'op': 'flt', 'v': 0.0 if rng.chance(0.3) else 10.0 ** rng.uniform(-4, 1) * float(np.abs(cur).max()) ** 2})
+            out.append({'op': 'flt', 'v': 0.0 if rng.chance(0.3) else 10.0 ** rng.uniform(-4, 1) * sc2})
         if rng.chance(0.4):
-            out.append({'op': 'sinr', 'v': 10.0 ** rng.uniform(-4, 1) * float(np.abs(cur).max()) ** 2})
+            out.append({'op': 'sinr', 'v': 10.0 ** rng.uniform(-4, 1) * sc2})
         rng.shuffle(out)
         return out
     ops += observe()
@@ -1258,15 +1764,18 @@ def gen_history(rng, g, scheme, max_n, n_reconf=None):
         kind = rng.choice(['nv', 'sc', 'nv-sc', 'sc-nv', 'nv'] if fam else ['sc', 'sc', 'sc', 'nv'])
         for part in kind.split('-'):
             if part == 'nv':
-                ops.append({'op': 'nv', 'v': noise(cur)})
+                op = {'op': 'nv', 'v': noise(cur if cur is not None else np.ones(1))}
             else:
                 valid = not rng.chance(0.1)
                 Hn = chan(valid)
-                ops.append({'op': 'sc', 'H': enc(Hn)})
+                op = {'op': 'sc', 'H': enc(Hn)}
                 if valid:
                     cur = Hn
+            ops.append(op)
+            if rng.chance(0.15):  # the same setter call repeated
+                ops.append(dict(op))
         ops += observe()
-    return {'scheme': scheme, 'H0': enc(H0), 'ops': ops}
+    return {'scheme': scheme, 'H0': enc(H0) if H0 is not None else None, 'ops': ops}
 
 
 SCHEMES = ('blast', 'mrc', 'mrt', 'svd', 'gmd', 'alamouti')
@@ -1294,6 +1803,209 @@ def histories(ctx, g, reps, max_n):
                                       'x': enc(x), 'exps': [2, 4, 8, 12], 'final': rng.choice([None, 0.0])},
                        key=('sweep', idx))
         if len(b.items) > 300:
+            b.flush()
+    b.flush()
+
+
+# ---- robustness classes: case generation, oracles and correspondence ------------------------------------
+def scheme_shape(rng, scheme, max_n):
+    if scheme in ('blast', 'svd', 'gmd'):
+        nt = rng.randint(1, min(max_n, 4))
+        return rng.randint(nt, min(max_n, 5)), nt
+    if scheme == 'mrc':
+        return rng.randint(1, max_n), 1
+    if scheme == 'mrt':
+        return 1, rng.randint(1, max_n)
+    return rng.randint(1, max_n), 2
+
+
+def int_channel(g, nr, nt, nonneg=False, cplx=False, max_cond=50.0):
+    """integer-valued (hence exactly representable in every element type), well conditioned"""
+    lo, hi = (0, 5) if nonneg else (-3, 4)
+    for _ in range(400):
+        H = g.rs.randint(lo, hi, size=(nr, nt)).astype(complex)
+        if cplx:
+            H = H + 1j * g.rs.randint(lo, hi, size=(nr, nt))
+        if np.linalg.matrix_rank(H) == min(nr, nt) and cond2(H) <= max_cond:
+            return H
+    return np.eye(nr, nt, dtype=complex) * 2 + (0 if nonneg else 0) + np.ones((nr, nt))
+
+
+def int_data(g, n, nonneg=False, cplx=False):
+    x = g.rs.randint(0 if nonneg else -4, 5, size=n).astype(complex)
+    if cplx:
+        x = x + 1j * g.rs.randint(0 if nonneg else -4, 5, size=n)
+    if n and not np.any(x):
+        x[0] = 1
+    return x
+
+
+def n_symbols(rng, scheme, nt):
+    L = rng.choice([1, 2, 3])
+    return 2 * L if scheme == 'alamouti' else (nt * L if scheme in ('blast', 'svd', 'gmd') else L)
+
+
+def squeeze_arg(scheme, H):
+    """the 1-D form of a vector channel where the class takes one"""
+    if scheme == 'mrc':
+        return H.reshape(-1)
+    if scheme == 'mrt':
+        return H.reshape(-1)
+    return H
+
+
+def corr_variant(ctx, b, scheme, Hv, xv, nv, ck):
+    """correspondence of one (possibly exotic) input with the model, which sees the logical values only;
+    R3 on the way: the arguments must come back unchanged"""
+    hs, xs = np.array(Hv, copy=True), np.array(xv, copy=True)
+    if scheme in ('blast', 'mrc'):
+        corr_blast(ctx, b, scheme, Hv, xv, nv, ck)
+    elif scheme == 'svd':
+        corr_svd(ctx, b, Hv, xv, ck)
+    elif scheme == 'gmd':
+        corr_gmd(ctx, b, Hv, xv, nv, ck)
+    elif scheme == 'mrt':
+        corr_mrt(ctx, b, np.asarray(Hv).reshape(-1), xv, ck, np.asarray(Hv).ndim == 2)
+    else:
+        corr_alamouti(ctx, b, Hv, xv, ck)
+    same = np.array_equal(Hv, hs) and np.array_equal(xv, xs)
+    ctx.corr('R3.arguments-unchanged.' + scheme, {'scheme': scheme, 'H': enc(hs), 'x': enc(xs)},
+             'unchanged' if same else 'changed', 'unchanged', key=ck + ('r3',))
+    ctx.branch('R3:corr')
+
+
+NV_VARIANTS = [(0.5, 'float'), (0.5, 'float32'), (0.5, 'float16'), (0.5, 'array0d'), (2, 'int'), (2, 'int8'), (2, 'uint8'),
+               (1, 'int16'), (3, 'uint16'), (2, 'int32'), (2, 'int64'), (0, 'int'), (1, 'int'), (0, 'uint8')]
+
+
+def robustness(ctx, g, reps, max_n):
+    """R1-R7 for every scheme: first-principles / twin oracles on the real code and correspondence with the model"""
+    rng = ctx.rng
+    drv = core.Driver(DRIVER)
+    b = Batch(drv)
+    idx = 0
+    for rep in range(reps):
+        for scheme in SCHEMES:
+            idx += 1
+            fam = scheme in ('blast', 'mrc', 'svd', 'gmd')
+            nr, nt = scheme_shape(rng, scheme, max_n)
+            # ---------------- R1 element types
+            hdt = rng.choice(INT_DT + F32_DT + ('float64',))
+            nonneg = hdt == 'uint8'
+            Hb = int_channel(g, nr, nt, nonneg=nonneg, cplx=hdt in ('complex64',))
+            xdt = rng.choice(INT_DT + F32_DT + (None, None))
+            xb = int_data(g, n_symbols(rng, scheme, nt), nonneg=(xdt == 'uint8'), cplx=xdt in ('complex64', None))
+            nv, nvt = rng.choice(NV_VARIANTS) if fam else (None, None)
+            which = rng.choice(['H', 'x', 'nv', 'H+x', 'H+nv'] if fam else ['H', 'x', 'H+x'])
+            case = {'scheme': scheme, 'H': enc(squeeze_arg(scheme, Hb)), 'x': enc(xb), 'nv': nv if 'nv' in which else (0.5 if fam else None),
+                    'hdt': hdt if 'H' in which else None, 'xdt': xdt if 'x' in which else None,
+                    'nvt': nvt if 'nv' in which else None}
+            if case['hdt'] is None and np.any(Hb.imag):
+                case['H'] = enc(squeeze_arg(scheme, Hb))
+            if case['xdt'] in INT_DT + ('float32',) and np.any(xb.imag):
+                case['x'] = enc(xb.real.astype(complex))
+            run_oracle(ctx, 'dtype', case, key=('R1', idx))
+            ctx.branch('R1:oracle')
+            ctx.branch('R1:' + (case['hdt'] or case['xdt'] or ('nv=' + str(case['nvt']))))
+            Hv, xv = cast_arr(dec(case['H']), case['hdt']), cast_arr(dec(case['x']), case['xdt'])
+            nvv = mk_scalar(case['nv'], case['nvt']) if fam else 0.0
+            with tol_factor(1e5 if is_single(case['hdt'], case['xdt']) else 1.0):
+                b1 = Batch(drv)
+                corr_variant(ctx, b1, scheme, Hv, xv, 0.0 if nvv is None else nvv, ('R1c', idx))
+                b1.flush()
+            ctx.branch('R1:corr')
+            # ---------------- R2 layout and shape
+            H = squeeze_arg(scheme, g.channel(nr, nt)[0]) if scheme != 'alamouti' else g.channel(max(nr, 2), 2)[0][:nr, :] + 0.1
+            x = g.data(n_symbols(rng, scheme, nt))[0]
+            hl = rng.choice(LAYOUTS + (None,))
+            xl = rng.choice(LAYOUTS + (None,) + (('row', 'col') if scheme in ('blast', 'svd', 'gmd', 'mrc') else ()))
+            yl = rng.choice(LAYOUTS + (None,))
+            if hl is None and xl is None and yl is None:
+                hl = 'F'
+            nv2 = (0.0 if rng.chance(0.5) else 0.3 * amax(H) ** 2) if fam else 0.0
+            case = {'scheme': scheme, 'H': enc(H), 'x': enc(x), 'nv': nv2, 'hl': hl, 'xl': xl, 'yl': yl}
+            run_oracle(ctx, 'layout', case, key=('R2', idx))
+            ctx.branch('R2:oracle')
+            corr_variant(ctx, b, scheme, relayout(H, hl), relayout(x, xl if xl not in ('row', 'col') else None), nv2, ('R2c', idx))
+            ctx.branch('R2:corr')
+            # ---------------- R3 immutability / independence of results
+            run_oracle(ctx, 'immutable', {'scheme': scheme, 'H': enc(H), 'x': enc(x), 'nv': nv2}, key=('R3', idx))
+            ctx.branch('R3:oracle')
+            # ---------------- R4 rejected calls
+            bads = [k for k in ('channel', 'noise', 'length', 'rows')
+                    if not ((k == 'channel' and scheme == 'mrc') or (k == 'length' and (scheme in ('mrt', 'mrc') or
+                                                                                       (scheme != 'alamouti' and nt == 1)))
+                            or (k == 'rows' and scheme == 'mrt'))]
+            run_oracle(ctx, 'rejected', {'scheme': scheme, 'H': enc(H), 'x': enc(x), 'nv': nv2, 'bad': rng.choice(bads)},
+                       key=('R4', idx))
+            ctx.branch('R4:oracle')
+            # ---------------- R5 boundary values
+            kind = rng.choice(['noise-values', '1x1', 'one-symbol', 'zeros-ones', 'sizes'] if fam else
+                              ['1x1', 'one-symbol', 'zeros-ones', 'sizes'])
+            if kind == 'noise-values':
+                vals = [0.7 * amax(H) ** 2, 0, 0.7 * amax(H) ** 2, 0.0, 0.7 * amax(H) ** 2, None, 1, 1.0, 0.0]
+                case = {'scheme': scheme, 'kind': kind, 'H': enc(H), 'x': enc(x), 'values': vals}
+                Hc, xc = H, x
+            else:
+                if kind == '1x1':
+                    Hc = {'alamouti': np.array([[1.0 + 0j, 1j]]), 'mrt': np.array([2.0 + 0j]), 'mrc': np.array([1j])}.get(
+                        scheme, np.array([[rng.choice([1.0, -1.0, 1j, 0.5])]], dtype=complex))
+                    xc = g.data(2 if scheme == 'alamouti' else 1)[0]
+                elif kind == 'one-symbol':
+                    Hc, xc = H, g.data(2 if scheme == 'alamouti' else as2d(scheme, H).shape[1] if scheme in ('blast', 'svd', 'gmd') else 1)[0]
+                elif kind == 'zeros-ones':
+                    Hc = squeeze_arg(scheme, int_channel(g, nr, nt, nonneg=True, max_cond=1e4).clip(0, 1)
+                                     if np.linalg.matrix_rank(int_channel(g, nr, nt, nonneg=True).clip(0, 1)) == min(nr, nt)
+                                     else np.eye(nr, nt, dtype=complex))
+                    if scheme == 'alamouti' or np.linalg.matrix_rank(as2d(scheme, Hc)) < min(as2d(scheme, Hc).shape):
+                        Hc = squeeze_arg(scheme, np.eye(nr, nt, dtype=complex)) if scheme != 'alamouti' else np.eye(nr, 2, dtype=complex)
+                    xc = g.data(n_symbols(rng, scheme, as2d(scheme, Hc).shape[1]))[0]
+                else:
+                    n_big = rng.choice([7, 8, 9, 15, 16, 17, 25, 31, 32, 33])
+                    Hc = H
+                    ntc = as2d(scheme, H).shape[1]
+                    xc = g.data(2 * n_big if scheme == 'alamouti' else ntc * n_big if scheme in ('blast', 'svd', 'gmd') else n_big)[0]
+                case = {'scheme': scheme, 'kind': kind, 'H': enc(Hc), 'x': enc(xc)}
+            run_oracle(ctx, 'boundary', case, key=('R5', idx))
+            ctx.branch('R5:oracle')
+            ctx.branch('R5:' + kind)
+            corr_variant(ctx, b, scheme, Hc, xc, 0 if rng.chance(0.5) else 1, ('R5c', idx))
+            ctx.branch('R5:corr')
+            # ---------------- R6 scale
+            hs = 10.0 ** rng.choice([-12, -9, -6, -3, 3, 6, 9, 12])
+            xs = 10.0 ** rng.choice([-12, -6, 0, 0, 6, 12])
+            case = {'scheme': scheme, 'H': enc(H), 'x': enc(x), 'hs': hs, 'xs': xs, 'nv_rel': 10.0 ** rng.uniform(-4, 0)}
+            run_oracle(ctx, 'scale', case, key=('R6', idx))
+            ctx.branch('R6:oracle')
+            corr_variant(ctx, b, scheme, H * hs, x * xs, (case['nv_rel'] * amax(H * hs) ** 2) if (fam and rng.chance(0.5)) else 0.0,
+                         ('R6c', idx))
+            ctx.branch('R6:corr')
+            # ---------------- R7 life cycle
+            kind = rng.choice(['late-channel', 'repeated-setters', 'shared-channel'])
+            if kind == 'shared-channel':
+                H2 = as2d(scheme, H)
+                comp = [o for o in ('blast', 'svd', 'gmd') if H2.shape[0] >= H2.shape[1]] + (['alamouti'] if H2.shape[1] == 2 else []) \
+                    + (['mrt'] if H2.shape[0] == 1 else [])
+                if scheme in ('mrc', 'mrt'):
+                    comp = [scheme, 'alamouti'] if (scheme == 'mrt' and H2.shape[1] == 2) else [scheme]
+                other = rng.choice(comp)
+                ntb = as2d(other, H).shape[1]
+                case = {'scheme': scheme, 'kind': kind, 'H': enc(H), 'x': enc(x), 'other': other,
+                        'xb': enc(g.data(n_symbols(rng, other, ntb))[0])}
+            else:
+                hist = gen_history(rng, g, scheme, max_n, late=(kind == 'late-channel'))
+                if kind == 'repeated-setters':
+                    ops = []
+                    for op in hist['ops']:
+                        ops += [op, dict(op), dict(op)] if op['op'] in ('sc', 'nv') else [op]
+                    hist['ops'] = ops
+                case = {'scheme': scheme, 'kind': kind, 'history': hist}
+                corr_history(ctx, b, hist, ('R7c', idx))
+                ctx.branch('R7:corr')
+            run_oracle(ctx, 'lifecycle', case, key=('R7', idx))
+            ctx.branch('R7:oracle')
+            ctx.branch('R7:' + kind)
+        if len(b.items) > 400:
             b.flush()
     b.flush()
 
@@ -1486,12 +2198,14 @@ def check(ctx):
     ctx.required_branches = ['corr:blast:zf', 'corr:blast:mmse', 'corr:mrc:zf', 'corr:mrt', 'corr:svd:square',
                              'corr:svd:tall', 'corr:gmd:zf', 'corr:gmd:mmse', 'corr:alamouti', 'guard:error',
                              'guard:ok', 'hist:blast', 'hist:mrc', 'hist:mrt', 'hist:svd', 'hist:gmd', 'hist:alamouti',
-                             'hist-op:set_noise_var:ok', 'hist-op:set_channel:ok', 'hist-op:set_channel:rejected', 'hist-op:dec',
+                             'R1:oracle', 'R1:corr', 'R2:oracle', 'R2:corr', 'R3:oracle', 'R3:corr', 'R4:oracle', 'R4:corr',
+                             'R5:oracle', 'R5:corr', 'R6:oracle', 'R6:corr', 'R7:oracle', 'R7:corr', 'hist-op:set_noise_var:ok', 'hist-op:set_channel:ok', 'hist-op:set_channel:rejected', 'hist-op:dec',
                              'contract-ok:pinv', 'contract-ok:solve', 'contract-ok:svd', 'contract-ok:gmd']
     try:
         small_scope(ctx)
         correspondence(ctx, g, 15 if quick else 150, max_n)
-        histories(ctx, Gen(ctx.rng.fork('hist')), 25 if quick else 150, max_n)
+        histories(ctx, Gen(ctx.rng.fork('hist')), 25 if quick else 100, max_n)
+        robustness(ctx, Gen(ctx.rng.fork('robust')), 12 if quick else 70, max_n)
     except core.Infra as e:
         if not ctx.broken:
             raise
